@@ -252,7 +252,9 @@ def _ods_count(name, count_text, minimum, location):
             raise ValueError("count must match regular expression")
         result = int(count_text)
     except ValueError:
-        raise errors.DataFormatError("%s is %s but must be an integer" % (name, _compat.text_repr(count_text)), location)
+        raise errors.DataFormatError(
+            "%s is %s but must be an integer" % (name, _compat.text_repr(count_text)), location
+        )
     if result < minimum:
         raise errors.DataFormatError(
             "%s is %s but must be at least %d" % (name, _compat.text_repr(count_text), minimum), location
